@@ -371,7 +371,10 @@ def apply_fault(sm, spec, fault, pick):
         mc = spec.get('mc')
         if not mc:
             return None
-        port = [p for p in prov if p['name'] == mc['port']][0]
+        hit = [p for p in prov if p['name'] == mc['port']]
+        if not hit or hit[0]['itf'] is None:
+            return None  # the configuration is not a valid one to begin with (an earlier fault)
+        port = hit[0]
         itf = port['itf']['elem']
         if fault == 'mc_unknown_port':
             mc['port'] = 'no_such_port'
